@@ -5,6 +5,7 @@ import (
 	"strconv"
 	"testing"
 	"time"
+	"unsafe"
 
 	"github.com/jamespfennell/gtfs"
 	"pgregory.net/rapid"
@@ -38,6 +39,49 @@ func cell(tb *sgen.Table, row []string, col string) (string, bool) {
 		return "", false
 	}
 	return row[c], true
+}
+
+// stopRoots returns the root of every stop's parent chain, computed with memoisation (linear also for chains tens of thousands
+// deep), or a violation when a chain leaves Stops or does not end (a cycle: Root() would never return).
+func stopRoots(s *gtfs.Static) ([]*gtfs.Stop, error) {
+	roots := make([]*gtfs.Stop, len(s.Stops))
+	if len(s.Stops) == 0 {
+		return roots, nil
+	}
+	base := &s.Stops[0]
+	idx := func(p *gtfs.Stop) int {
+		return int((uintptr(unsafe.Pointer(p)) - uintptr(unsafe.Pointer(base))) / unsafe.Sizeof(*base))
+	}
+	var path []int
+	for i := range s.Stops {
+		if roots[i] != nil {
+			continue
+		}
+		path = path[:0]
+		cur := &s.Stops[i]
+		for {
+			ci := idx(cur)
+			if ci < 0 || ci >= len(s.Stops) || &s.Stops[ci] != cur {
+				return nil, vt.FailSig("reference-not-into-result", "a Parent pointer reachable from Stops[%d] does not point into Stops", i)
+			}
+			if roots[ci] != nil {
+				cur = roots[ci]
+				break
+			}
+			path = append(path, ci)
+			if len(path) > len(s.Stops) {
+				return nil, vt.FailSig("stop-parent-cycle", "Stops[%d] (%q): following Parent does not reach a root within %d steps - the hierarchy has a cycle, Root() would never return", i, s.Stops[i].Id, len(s.Stops))
+			}
+			if cur.Parent == nil {
+				break
+			}
+			cur = cur.Parent
+		}
+		for _, pi := range path {
+			roots[pi] = cur
+		}
+	}
+	return roots, nil
 }
 
 // checkClosure evaluates the predicates; bound is the number of non-nil references seen.
@@ -96,18 +140,10 @@ func checkClosure(ts sgen.Tables, s *gtfs.Static) (bound int, err error) {
 			}
 		}
 	}
-	// forest
-	roots := make([]*gtfs.Stop, len(s.Stops))
-	for i := range s.Stops {
-		cur, steps := &s.Stops[i], 0
-		for cur.Parent != nil {
-			cur = cur.Parent
-			steps++
-			if steps > len(s.Stops) {
-				return 0, vt.FailSig("stop-parent-cycle", "Stops[%d] (%q): following Parent does not reach a root within %d steps - the hierarchy has a cycle, Root() would never return", i, s.Stops[i].Id, len(s.Stops))
-			}
-		}
-		roots[i] = cur
+	// forest: the root of every stop
+	roots, ferr := stopRoots(s)
+	if ferr != nil {
+		return 0, ferr
 	}
 	// every chain is acyclic (bounded walk above), so Root() terminates; the watchdog is a backstop only
 	type rootRes struct {
@@ -116,7 +152,11 @@ func checkClosure(ts sgen.Tables, s *gtfs.Static) (bound int, err error) {
 	}
 	done := make(chan rootRes, 1)
 	go func() {
-		for i := range s.Stops {
+		step := 1
+		if len(s.Stops) > 3000 {
+			step = len(s.Stops) / 1500 // Root() itself walks the whole chain: sample the stops of very large hierarchies
+		}
+		for i := 0; i < len(s.Stops); i += step {
 			if r := s.Stops[i].Root(); r != roots[i] {
 				done <- rootRes{i, r}
 				return
@@ -311,4 +351,72 @@ func vtSafeBound(ts sgen.Tables, s *gtfs.Static) (bound int, err error) {
 		}
 	}()
 	return checkClosure(ts, s)
+}
+
+// TestC03Large: closure and the forest at sizes beyond 16-bit indexes and any depth bound: archives inflated to 70000 rows with
+// hostile edits, parent chains tens of thousands deep, and parent CYCLES through 9000 ... 70000 stops (which the parser must
+// break somewhere). Every (kind, size) combination runs in every tier.
+func TestC03Large(t *testing.T) {
+	type cfg struct {
+		kind string
+		n    int
+	}
+	for _, k := range []cfg{{"inflated", 70000}, {"cycle", 9000}, {"cycle", 33000}, {"cycle", 70001}, {"chain", 70001}} {
+		k := k
+		t.Run(fmt.Sprintf("%s-%d", k.kind, k.n), func(outer *testing.T) {
+			fail := ""
+			defer func() {
+				if fail != "" {
+					outer.Fatalf("%s", fail)
+				}
+			}()
+			rapid.Check(outer, func(t *rapid.T) {
+				o := sgen.DefaultGenOpts()
+				o.MinTrips, o.MinStopTimes = 1, 1
+				f, _ := sgen.GenFeed(t, o)
+				ts := f.Tables()
+				var labels []string
+				switch k.kind {
+				case "inflated":
+					ts = sgen.Inflate(ts, k.n)
+					ts, labels = sgen.Mutate(t, ts, rapid.IntRange(1, 6).Draw(t, "nEdits"), false)
+				default:
+					st := ts.Get("stops.txt")
+					ic, pc := st.Col("stop_id"), st.Col("parent_station")
+					tmpl := append([]string(nil), st.Rows[0]...)
+					if lt := st.Col("location_type"); lt >= 0 {
+						tmpl[lt] = ""
+					}
+					first := len(st.Rows)
+					for i := 0; i < k.n; i++ {
+						row := append([]string(nil), tmpl...)
+						row[ic] = fmt.Sprintf("ring%d", i)
+						row[pc] = fmt.Sprintf("ring%d", i+1)
+						st.Rows = append(st.Rows, row)
+					}
+					last := st.Rows[len(st.Rows)-1]
+					if k.kind == "cycle" {
+						last[pc] = "ring0"
+					} else {
+						last[pc] = ""
+					}
+					if rapid.Bool().Draw(t, "reverseRows") {
+						for i, j := first, len(st.Rows)-1; i < j; i, j = i+1, j-1 {
+							st.Rows[i], st.Rows[j] = st.Rows[j], st.Rows[i]
+						}
+					}
+					labels = []string{fmt.Sprintf("parent-%s-%d", k.kind, k.n)}
+				}
+				c := CaseTables{Tables: ts, Inherit: rapid.Bool().Draw(t, "inherit"), Labels: labels}
+				c.Env = genEnv(t)
+				c03Rec.Eval(fmt.Sprintf("large:%s>=%d", k.kind, k.n))
+				c03Rec.NontrivialCase(vt.Fingerprint([]any{k.kind, k.n, labels, c.Inherit}), func() any {
+					return map[string]any{"kind": k.kind, "size": k.n, "edits": labels}
+				})
+				if msg := vt.Try(c03Rec, c, checkC03); msg != "" && fail == "" {
+					fail = msg
+				}
+			})
+		})
+	}
 }
